@@ -27,13 +27,16 @@ classes of rs2lean.py; everything not mentioned here is inherited unchanged).  A
 """
 import sys, re
 
-_m = sys.modules.get("rs2lean")
+# The base this dialect extends is tools/rs2lean_cfbase.py (the base translator as it was when the dialect was written;
+# tools/rs2lean.py has since been extended independently by other builders — see TRANSLATOR_MODULES in gen_tables.py).
+_m = sys.modules.get("rs2lean_cfbase")
 if _m is None:
     _mm = sys.modules.get("__main__")
-    if getattr(_mm, "FnTranslator", None) is not None and getattr(_mm, "UNITS", None) is not None:
+    if getattr(_mm, "FnTranslator", None) is not None and getattr(_mm, "UNITS", None) is not None \
+            and "rs2lean_cfbase" in str(getattr(_mm, "__file__", "")):
         _m = _mm
     else:
-        import rs2lean as _m
+        import rs2lean_cfbase as _m
 rs = _m
 N, Code, Var, Unsupported = rs.N, rs.Code, rs.Var, rs.Unsupported
 Ty, TInt, TBool, TUnit, TSeq, TTuple, TAbs = rs.Ty, rs.TInt, rs.TBool, rs.TUnit, rs.TSeq, rs.TTuple, rs.TAbs
